@@ -573,17 +573,8 @@ func (c *Ctx) dischargeIndex(s *PanicSite, depth int) (bool, string) {
 	// (d) index from an IndexFunc-style search guarded by i >= 0
 	ie := o.Of(s.Idx)
 	if ie.K == "call" && (strings.HasSuffix(ie.S, ".IndexFunc") || strings.HasSuffix(ie.S, ".Index")) && len(ie.Args) >= 1 && ie.Args[0].String() == xe.String() {
-		nonneg := &Cond{Name: "index >= 0", Match: func(f *Fact, o2 *Origins) bool {
-			return f.Kind == "cmp" && f.Pos && f.Op.String() == "<=" && isConst(f.A, "0") && f.B.String() == ie.String()
-		}}
-		if ok, _ := o.Requires(s.Instr, nonneg); ok {
-			return true, "search result tested >= 0"
-		}
-		notMinus1 := &Cond{Name: "index != -1", Match: func(f *Fact, o2 *Origins) bool {
-			return f.Kind == "cmp" && !f.Pos && f.Op.String() == "==" && f.A.String() == ie.String() && isConst(f.B, "-1")
-		}}
-		if ok, _ := o.Requires(s.Instr, notMinus1); ok {
-			return true, "search result tested != -1 (the search returns -1 or a valid index)"
+		if ok, _ := o.Requires(s.Instr, searchHitCond(ie)); ok {
+			return true, "search result tested >= 0 / != -1 (the search returns -1 or a valid index)"
 		}
 	}
 	// (e) loop index bounded by len(X): dominating fact idx < len(X) with a non-negative start
@@ -598,6 +589,49 @@ func (c *Ctx) dischargeIndex(s *PanicSite, depth int) (bool, string) {
 		return c.requireLen(s, xe, 1, depth)
 	}
 	return false, "index " + short(ie.String(), 80) + " into " + short(xe.String(), 80) + " not proven in range"
+}
+
+// searchHitCond: the result ie of an Index / IndexFunc style search is a valid index (the search returns
+// -1 or an index): ie >= 0, 0 <= ie, !(ie < 0), ie > -1, ie != -1, !(ie == -1), in any operand order.
+func searchHitCond(ie *Ex) *Cond {
+	want := ie.String()
+	// the printed form of a loop-carried value depends on where its cycle was entered: compare calls by identity
+	same := func(e *Ex) bool {
+		if ie.Call != nil && e.K == "call" && e.Call == ie.Call && e.Idx == ie.Idx {
+			return true
+		}
+		return e.String() == want
+	}
+	return &Cond{Name: "search result is a hit (>= 0)", Match: func(f *Fact, _ *Origins) bool {
+		if f.Kind != "cmp" {
+			return false
+		}
+		a, b, op := f.A, f.B, f.Op.String()
+		if same(b) && a.K == "const" {
+			// mirror so that the search result is on the left
+			a, b = b, a
+			switch op {
+			case "<":
+				op = ">"
+			case "<=":
+				op = ">="
+			case ">":
+				op = "<"
+			case ">=":
+				op = "<="
+			}
+		}
+		if !same(a) || b.K != "const" {
+			return false
+		}
+		switch {
+		case op == ">=" && b.S == "0", op == ">" && b.S == "-1", op == "!=" && b.S == "-1":
+			return f.Pos
+		case op == "<" && b.S == "0", op == "<=" && b.S == "-1", op == "==" && b.S == "-1":
+			return !f.Pos
+		}
+		return false
+	}}
 }
 
 func nonNegative(e *Ex) bool {
@@ -697,6 +731,14 @@ func (c *Ctx) dischargeDelete(s *PanicSite, depth int) (bool, string) {
 		hi := o.Of(s.Idx)
 		if hi.K == "bin" && hi.S == "+" && hi.Args[0].String() == o.Of(lo).String() && isConst(hi.Args[1], "1") {
 			return true, "delete of the element at the range index"
+		}
+	}
+	// slices.Delete(X, i, i+1) with i the result of a search over X that was tested to be a hit
+	if ie := o.Of(lo); ie.K == "call" && (strings.HasSuffix(ie.S, ".IndexFunc") || strings.HasSuffix(ie.S, ".Index")) && ie.Call != nil && len(ie.Call.Common().Args) >= 1 && o.sameValue(ie.Call.Common().Args[0], s.X) {
+		if hb, ok := s.Idx.(*ssa.BinOp); ok && hb.Op.String() == "+" && hb.X == lo && isConst(o.Of(hb.Y), "1") {
+			if ok, _ := o.Requires(s.Instr, searchHitCond(ie)); ok {
+				return true, "delete of the element found by a search that was tested to be a hit"
+			}
 		}
 	}
 	// constants with a length fact
